@@ -65,6 +65,7 @@ class Cfg(object):
         self.text = st.text(alphabet=st.characters(min_codepoint=32, max_codepoint=126), max_size=12)
         self.uniform_channel = False  # every note of a track on one channel
         self.empty_containers = False  # some rests are written as an empty container ([]) instead of None
+        self.twin_p = 0  # 0 = never; otherwise one bar in twin_p is followed by its enharmonic twin (same pitches, other spelling)
         self.__dict__.update(kw)
 
 
@@ -123,6 +124,22 @@ def _entry(draw, cfg, v, content):
     return e
 
 
+def respell(note, octaves):
+    """another spelling of the same pitch (e.g. C#-4 -> Db-4, B-3 -> Cb-4), or the note itself when there is none in range"""
+    p = T.pitch(note[0], note[1])
+    for nm in NAMES2:
+        if nm[0] != note[0][0]:
+            o, r = divmod(p - T.NAT[nm[0]] - T.acc(nm), 12)
+            if r == 0 and o in octaves:
+                return [nm, o] + list(note[2:])
+    return list(note)
+
+
+def twin_bar(bar, octaves):
+    return {"key": bar["key"], "meter": list(bar["meter"]),
+            "entries": [dict(e, notes=None if e["notes"] is None else [respell(n, octaves) for n in e["notes"]]) for e in bar["entries"]]}
+
+
 @st.composite
 def track_st(draw, cfg):
     nbars = draw(st.integers(1, cfg.max_bars))
@@ -134,6 +151,10 @@ def track_st(draw, cfg):
         last = i == nbars - 1
         fill = cfg.fill and not (last and cfg.partial_last and draw(st.booleans()))
         bars.append(draw(bar_st(cfg, meter=meter, key=key, fill=fill, channel=channel)))
+        if cfg.twin_p and draw(st.integers(0, cfg.twin_p - 1)) == 0:
+            bars.append(twin_bar(bars[-1], cfg.octaves))
+            if draw(st.booleans()):
+                bars.append(twin_bar(bars[-1], cfg.octaves) if draw(st.booleans()) else dict(bars[-2]))
     kind = draw(st.sampled_from(cfg.instruments))
     instr = None
     if kind == "midi":
@@ -175,10 +196,12 @@ def features(comp_or_track):
             f.add("empty-container")
         if any(e["notes"] and len(e["notes"]) > 1 for e in es):
             f.add("chord")
-        if any(e["v"][1] > 0 for e in es):
+        if any(e["v"][0] != "ticks" and e["v"][1] > 0 for e in es):
             f.add("dotted")
-        if any(e["v"][2] != 1 for e in es):
+        if any(e["v"][0] != "ticks" and e["v"][2] != 1 for e in es):
             f.add("tuplet")
+        if any(e["v"][0] == "ticks" for e in es):
+            f.add("tick-value")
         if any("bpm" in e for e in es):
             f.add("tempo-change")
         if any(all(not e["notes"] for e in b["entries"]) and b["entries"] for b in t["bars"]):
@@ -186,6 +209,11 @@ def features(comp_or_track):
         ks = {(b["key"], tuple(b["meter"])) for b in t["bars"]}
         if len(ks) > 1:
             f.add("key-or-meter-change")
+        for a, b in zip(t["bars"], t["bars"][1:]):
+            pa = [[(T.pitch(n[0], n[1])) for n in (e["notes"] or [])] for e in a["entries"]]
+            pb = [[(T.pitch(n[0], n[1])) for n in (e["notes"] or [])] for e in b["entries"]]
+            if pa == pb and any(pa) and [e["v"] for e in a["entries"]] == [e["v"] for e in b["entries"]]:
+                f.add("repeated-bar" if a == b else "enharmonic-twin-bar")
         if any(T.KEY_SIG[b["key"]] != 0 for b in t["bars"]):
             f.add("key-with-accidentals")
         if t["instr"] and t["instr"]["kind"] == "midi":
